@@ -32,7 +32,7 @@ func init() {
 		Title: "JSON object keys are unescaped before they are compared",
 		Text: "Every call of jlexer.Lexer.UnsafeFieldName in the module passes the constant false for skipUnescape: a key may be spelled with any legal JSON escape (`\"tot\\u0061l\"`), " +
 			"and the field switch of every decoder compares the unescaped name. With true, an escaped spelling of a known field is skipped as unknown (the default is then applied over data that was sent), and map keys keep their escapes.",
-		Props: []string{"C03", "C06", "C13", "C01"},
+		Props: []string{"C03", "C06", "C13", "C01", "C16"},
 		Floor: map[string]int{"v2": 1, "root": 1},
 		Run:   runR035,
 	})
@@ -420,7 +420,7 @@ func runR195(c *core.Ctx) {
 				return true
 			}
 			// a local of this function that only ever holds fresh values (`m := make(…)`, filled, then put into the copy)
-			if v, ok := core.ObjOf(inf, y).(*types.Var); ok && !v.IsField() && v != recv && v.Pos() > fd.Body.Pos() && v.Pos() < fd.Body.End() && depth < 3 {
+			if v, ok := core.ObjOf(inf, y).(*types.Var); ok && v != recv && bodyLocal(inf, fd, v) && depth < 3 {
 				defs, all := 0, true
 				depth++
 				ast.Inspect(fd.Body, func(z ast.Node) bool {
